@@ -11,6 +11,7 @@ import (
 	"path/filepath"
 	"regexp"
 	"sort"
+	"strconv"
 	"strings"
 	"time"
 )
@@ -90,6 +91,9 @@ func cmdRun(args []string) {
 	base.Workers = *workers
 	base.Solver = *solver
 	base.Tier = *tier
+	if v, err := strconv.Atoi(os.Getenv("GOSYM_MAXPATHS")); err == nil {
+		base.MaxPaths = v
+	}
 	ro := &RunOutput{Pkg: *pkg, Tier: *tier, LoadS: loadS, Solver: *solver}
 	for f := range ld.srcFiles {
 		ro.SrcFiles = append(ro.SrcFiles, f)
